@@ -30,7 +30,8 @@ P["C02"] = dict(
         ("Props.C02.C02_min_exact", "min compares exact decimal values (strict iff exclusive)"),
         ("Props.C02.C02_max_exact", "max compares exact decimal values (strict iff exclusive)"),
         ("Props.C02.C02_false_rules_inert", "false-valued nullable / exclusive* change nothing")),
-    runs=[{"cmd": ["sem-rules"]}, {"cmd": ["check-lit-rules"]}, {"cmd": ["formats-diff"]}, {"cmd": ["unquote-diff"]}],
+    runs=[{"cmd": ["sem-rules"]}, {"cmd": ["check-lit-rules"]}, {"cmd": ["formats-diff"]}, {"cmd": ["unquote-diff"]},
+          {"cmd": ["c18-named", "twins"]}, {"cmd": ["c18-named", "enum"]}],
     partial="decision logic, nullable, min/max/exclusive (exact, via C10), minLength/maxLength, uuid/date are modelled; regex, enum, const, precision, email/uri/datetime are compared with the code through other checks or are oracles (Go regexp, net/mail, net/url, time)",
     level_text="Proof (partial): the decision logic of scalar validation is stated outright and proved on the model (accept iff admissible kind and all rules, null by nullable first, false-valued rules inert); min/max are tied to exact decimal values through the C10 theorems. Tie: differential of real Validate/Check vs the Lean model on rule sets with bounds and probes in odd spellings, bounded-exhaustive single-node Check, uuid/date format models, string unquoting.",
     level_note="Trusted: Lean kernel; Go stdlib engines (regexp, net/mail, net/url, time.Parse) are oracles; enum/const/regex/precision rules are validated by other checks (c13, c18, number-diff), not proved.",
